@@ -289,12 +289,31 @@ def _subst_top(r, mapping):
 _DECIDE_DEPTH = [0]
 
 
+def _clear_reciprocal_roots(d):
+    """sqrt(u)**-1 and sqrt(u) are not independent generators (sqrt(u)**-1 = sqrt(u)/u): for the zero test the difference is multiplied by
+    the root as often as its most negative exponent says (a root in a denominator is non-zero) and reduced again (sqrt(u)**2 -> u)"""
+    num = d.num
+    for _ in range(6):
+        neg = {}
+        for (a, e) in num.t:
+            for k, x in a:
+                if x < 0:
+                    at = TABLE.atoms[k]
+                    if at.kind == 'fn' and at.name == 'sqrt':
+                        neg[k] = min(neg.get(k, 0), x)
+        if not neg or len(num.t) > 4000:
+            break
+        mono = tuple(sorted((k, -x) for k, x in neg.items()))
+        num = reduce_poly(num * Poly({(mono, NOEXP): ONE})).num
+    return Rat(num, Poly.const(1)) if num is not d.num else d
+
+
 def _difference(a, b, budget):
     if a.den == b.den:
-        return reduce_poly(a.num - b.num)
+        return _clear_reciprocal_roots(reduce_poly(a.num - b.num))
     if len(a.num.t) * len(b.den.t) + len(b.num.t) * len(a.den.t) > 6 * budget:
         return None
-    return reduce_poly(a.num * b.den - b.num * a.den)
+    return _clear_reciprocal_roots(reduce_poly(a.num * b.den - b.num * a.den))
 
 
 def _depends(atom_id, t, _memo):
